@@ -1,5 +1,12 @@
 /- C44 — property theorems. -/
 import TornadoModel.C44.Lemmas
+import TornadoModel.C44.Table
+import TornadoModel.C44.Td
+import TornadoModel.C44.FloatRej
+import TornadoModel.C44.FloatRt
+import TornadoModel.C44.Dt
+import TornadoModel.C44.TdRej
+import TornadoModel.C44.DtRej
 namespace TornadoModel.C44
 open Spec
 
@@ -128,36 +135,6 @@ example : (parseArgsLoop initState [lit "--help=false", lit "rest"]).2.toOption 
 
 /-- a value of the wrong type for an int option: any text with a character that cannot occur in an integer
     is rejected with `ValueError`, and the option keeps its value -/
-theorem digitPart_all (s : Str) (acc k : Nat) (us : Bool) (v n : Nat)
-    (h : digitPart s acc k us = some (v, n, [])) : ∀ c ∈ s, isDigit c = true ∨ c = 95 := by
-  induction s generalizing acc k us with
-  | nil => intro c hc; cases hc
-  | cons x xs ih =>
-    intro c hc
-    simp only [digitPart] at h
-    by_cases hx : isDigit x = true
-    · simp only [hx, if_true] at h
-      rcases List.mem_cons.mp hc with rfl | hm
-      · exact Or.inl hx
-      · exact ih _ _ _ h c hm
-    · simp only [hx, Bool.false_eq_true, if_false] at h
-      by_cases h95 : x = 95
-      · simp only [h95, if_true] at h
-        split at h
-        · cases h
-        · rcases List.mem_cons.mp hc with rfl | hm
-          · exact Or.inr h95
-          · exact ih _ _ _ h c hm
-      · simp only [h95, if_false] at h
-        split at h <;> cases h
-
-theorem mem_of_mem_takeSign (s : Str) (c : Nat) (hc : c ∈ s) (h1 : c ≠ 45) (h2 : c ≠ 43) : c ∈ (takeSign s).2 := by
-  unfold takeSign
-  split
-  · simp only [List.mem_cons] at hc; rcases hc with rfl | h; exact absurd rfl h1; exact h
-  · simp only [List.mem_cons] at hc; rcases hc with rfl | h; exact absurd rfl h2; exact h
-  · exact hc
-
 theorem parseInt_rejects (s : Str) (c : Nat) (hc : c ∈ s) (hd : isDigit c = false) (hw : isWs c = false)
     (h1 : c ≠ 45) (h2 : c ≠ 43) (h3 : c ≠ 95) : parseInt s = none := by
   unfold parseInt
@@ -193,40 +170,6 @@ example : isInstance .int (.fbin 3 2) = false := by decide
 example : isInstance .float (.int 1) = false := by decide
 
 /-! ## unset options keep their defaults -/
-
-theorem lookup_update_ne (st : State) (o : Opt) (k : Str) (h : (o.key == k) = false) :
-    lookup (update st o) k = lookup st k := by
-  unfold lookup update
-  induction st with
-  | nil => rfl
-  | cons x xs ih =>
-    simp only [List.map_cons, List.find?_cons]
-    by_cases hx : (x.key == o.key) = true
-    · have hxk : (x.key == k) = false := by
-        have : x.key = o.key := by simpa using hx
-        rw [this]; exact h
-      simp only [hx, if_true, h, hxk]
-      exact ih
-    · have hx' : (x.key == o.key) = false := by simpa using hx
-      simp only [hx', Bool.false_eq_true, if_false]
-      cases hk : (x.key == k)
-      · simpa using ih
-      · rfl
-
-theorem lookup_key (st : State) (k : Str) (o : Opt) (h : lookup st k = some o) : o.key = k := by
-  unfold lookup at h
-  have := List.find?_some h
-  simpa using this
-
-theorem parse_key (o : Opt) (s : Str) : (o.parse s).1.key = o.key := by
-  unfold Opt.parse
-  split
-  · generalize parseParts o.ty (splitOnC 44 s) [] = p
-    obtain ⟨vs, e⟩ := p
-    cases e <;> rfl
-  · split
-    · rfl
-    · split <;> rfl
 
 /-- **unset options keep their values** (so an option never mentioned keeps its default): whatever the outcome,
     `parse_command_line` changes no option whose name is not among the arguments. -/
@@ -265,16 +208,149 @@ theorem unset_keep_default (args : List Str) (st : State) (k : Str)
                 rw [ih _ (fun x hx => h x (by simp [hx]))]
                 exact lookup_update_ne st o' k hne
 
-/-! ## stated, not proved here (tie only) -/
+/-- the same for `parse_config_file`: whatever the outcome, no option whose name is not assigned in the file changes -/
+theorem unset_keep_default_config (items : List (Str × Val)) (st : State) (k : Str)
+    (h : ∀ it ∈ items, normalize it.1 ≠ k) : lookup (parseConfig st items).1 k = lookup st k := by
+  induction items generalizing st with
+  | nil => simp [parseConfig]
+  | cons it rest ih =>
+    obtain ⟨name, v⟩ := it
+    have hk : normalize name ≠ k := h (name, v) (by simp)
+    have ihr := fun st' => ih st' (fun x hx => h x (by simp [hx]))
+    cases hl : lookup st (normalize name) with
+    | none => cases v <;> simp only [parseConfig, hl] <;> exact ihr st
+    | some o =>
+      have hokey : o.key = normalize name := lookup_key st _ o hl
+      have hfin : ∀ o' : Opt, o'.key = o.key → lookup (update st o') k = lookup st k := by
+        intro o' hkey
+        apply lookup_update_ne
+        rw [hkey, hokey]; simpa using hk
+      cases v <;> simp only [parseConfig, hl] <;> repeat' split
+      all_goals first
+        | rfl
+        | exact hfin _ (set_key o _)
+        | exact hfin _ (parse_key o _)
+        | (rw [ihr]; first | exact hfin _ (set_key o _) | exact hfin _ (parse_key o _))
 
-/-- canonical `<n><unit>` sums parse to the sum of their terms (when every partial sum is a valid timedelta) -/
-def timedelta_roundtrip_goal : Prop :=
-  ∀ parts : List (Nat × TdUnit), parts ≠ [] →
+example : ((parseConfig initState [(lit "nosuch", .int 1), (lit "help", .bool false)]).1.map (·.key)) = [lit "help"] := by
+  decide +kernel
+
+/-! ## timedelta -/
+
+/-- **timedelta**: canonical `<n><unit>` sums parse to the sum of their terms (when every partial sum is a valid timedelta) -/
+theorem timedelta_roundtrip : ∀ parts : List (Nat × TdUnit), parts ≠ [] →
     (∀ k, tdInRange (denoteTd (parts.take k)) = true) → (∀ p ∈ parts, tdInRange (Int.ofNat (p.1 * p.2.micros)) = true) →
-    parseTimedelta (showTd parts) = .ok (denoteTd parts)
+    parseTimedelta (showTd parts) = .ok (denoteTd parts) := by
+  intro parts _ hk hp
+  have := loop_showTd parts (showTd parts).length 0 (Nat.le_refl _) (by simpa using hk) hp
+  simpa [parseTimedelta] using this
 
-/-- a float option rejects every text that is not a decimal literal, `inf`, `infinity` or `nan` -/
-def wrong_type_rejected_float_goal : Prop :=
-  ∀ s : Str, (∃ c ∈ s, isDigit c = false ∧ isWs c = false ∧ isAlpha c = false ∧ c ∉ [43, 45, 46, 95]) → parseFloat s = none
+/-- … and so does a timedelta option given that text -/
+theorem timedelta_option_roundtrip (o : Opt) (ho : o.ty = .timedelta) (hm : o.multiple = false) (hh : o.isHelp = false)
+    (parts : List (Nat × TdUnit)) (hne : parts ≠ [])
+    (hk : ∀ k, tdInRange (denoteTd (parts.take k)) = true) (hp : ∀ p ∈ parts, tdInRange (Int.ofNat (p.1 * p.2.micros)) = true) :
+    o.parse (showTd parts) = ({ o with value := some (.td (denoteTd parts)) }, none) := by
+  simp [Opt.parse, hm, ho, parseOne, timedelta_roundtrip parts hne hk hp, hh, Except.map]
+
+example : showTd [(1, .h), (30, .m)] = lit "1h 30m" := by decide +kernel
+example : denoteTd [(1, .h), (30, .m)] = 5400000000 := by decide +kernel
+example : ∀ k, tdInRange (denoteTd ([(1, TdUnit.h), (30, .m)].take k)) = true := by
+  intro k
+  match k with
+  | 0 => decide +kernel
+  | 1 => decide +kernel
+  | k + 2 => simp only [List.take_succ_cons, List.take_nil]; decide +kernel
+example : ∀ p ∈ [(1, TdUnit.h), (30, .m)], tdInRange (Int.ofNat (p.1 * p.2.micros)) = true := by decide +kernel
+
+/-! ## float: wrong type -/
+
+/-- a float option rejects every text that is not a decimal literal, `inf`, `infinity` or `nan`: any text with a character
+    that cannot occur in a float literal is a `ValueError` -/
+theorem wrong_type_rejected_float : ∀ s : Str,
+    (∃ c ∈ s, isDigit c = false ∧ isWs c = false ∧ isAlpha c = false ∧ c ∉ [43, 45, 46, 95]) → parseFloat s = none := by
+  intro s ⟨c, hc, hd, hw, ha, hn⟩
+  simp only [List.mem_cons, List.not_mem_nil, or_false, not_or] at hn
+  exact parseFloat_bad s c hc hd hw ha hn.1 hn.2.1 hn.2.2.1 hn.2.2.2
+
+/-- … and the float option keeps its value -/
+theorem wrong_type_rejected_float_option (o : Opt) (ho : o.ty = .float) (hm : o.multiple = false) (s : Str)
+    (h : ∃ c ∈ s, isDigit c = false ∧ isWs c = false ∧ isAlpha c = false ∧ c ∉ [43, 45, 46, 95]) :
+    o.parse s = (o, some .valueError) := by
+  simp [Opt.parse, hm, ho, parseOne, wrong_type_rejected_float s h]
+
+example : ∃ c ∈ lit "1,5", isDigit c = false ∧ isWs c = false ∧ isAlpha c = false ∧ c ∉ [43, 45, 46, 95] := by decide +kernel
+example : parseFloat (lit "1.5") = some (.fdec false 15 (-1)) := by rfl
+
+/-! ## float and datetime round trips -/
+
+/-- **float**: a decimal literal `[-]digits[.digits][e±digits]` (the shapes `repr(float)` produces, and more) parses to
+    exactly the rational it denotes, `±(digits as one integer) · 10^(exponent − number of fraction digits)`
+    (CPython then rounds that number to the nearest double; the rounding is not modelled) -/
+theorem float_roundtrip (l : DecLit) (h : l.wf) : parseOne .float (showDec l) = .ok (denoteDec l) := by
+  simp [parseOne, parseFloat_showDec l h]
+
+/-- … and so does a float option given that text -/
+theorem float_option_roundtrip (o : Opt) (ho : o.ty = .float) (hm : o.multiple = false) (hh : o.isHelp = false)
+    (l : DecLit) (h : l.wf) : o.parse (showDec l) = ({ o with value := some (denoteDec l) }, none) := by
+  have hd : denoteDec l = .fdec l.neg (digitsVal (l.ip ++ l.fp)) (expVal l.ex - Int.ofNat l.fp.length) := rfl
+  simp only [Opt.parse, hm, ho, float_roundtrip l h, hh, Bool.false_eq_true, if_false]
+
+example : showDec ⟨true, lit "12", lit "50", some (true, lit "07")⟩ = lit "-12.50e-07" := by decide +kernel
+example : (⟨true, lit "12", lit "50", some (true, lit "07")⟩ : DecLit).wf := by
+  refine ⟨by decide +kernel, by decide +kernel, by decide +kernel, by decide +kernel, by decide +kernel⟩
+example : denoteDec ⟨true, lit "12", lit "50", some (true, lit "07")⟩ = .fdec true 1250 (-9) := by rfl
+
+/-- **datetime**: the zero-padded numeric form `YYYY-MM-DD HH:MM:SS` of every valid calendar date and time parses to
+    exactly those fields (the earlier `%a %b …` format does not match; the regex backtracking picks the full fields) -/
+theorem datetime_roundtrip (y mo d h mi s : Nat) (hv : validDt y mo d h mi s) :
+    parseOne .datetime (showDtIso y mo d h mi s) = .ok (.dt y mo d h mi s) := by
+  simp [parseOne, parseDatetime_iso y mo d h mi s hv]
+
+example : showDtIso 2024 2 29 23 59 7 = lit "2024-02-29 23:59:07" := by decide +kernel
+example : validDt 2024 2 29 23 59 7 := by unfold validDt; decide +kernel
+
+/-! ## bool flag without a value; timedelta: wrong type -/
+
+/-- **bool flag**: `--name` without `=value` sets a (single-valued) bool option to `True` and parsing continues -/
+theorem bool_flag_no_value (st : State) (a : Str) (rest : List Str) (o : Opt)
+    (h1 : startsWithDash a = true) (h2 : a ≠ [45, 45]) (heq : (partition 61 (a.dropWhile (· == 45))).2.1 = false)
+    (hl : lookup st (keyOf a) = some o) (ho : o.ty = .bool) (hm : o.multiple = false) (hh : o.isHelp = false) :
+    parseArgsLoop st (a :: rest) = parseArgsLoop (update st { o with value := some (.bool true) }) rest := by
+  have h2' : (a == [45, 45]) = false := by simpa using h2
+  have hb : parseBool (lit "true") = true := by decide +kernel
+  unfold keyOf at hl
+  rw [parseArgsLoop]
+  simp only [h1, Bool.not_true, Bool.false_eq_true, if_false, h2']
+  generalize partition 61 (a.dropWhile (· == 45)) = p at hl heq ⊢
+  obtain ⟨nm, eq, v⟩ := p
+  simp only [] at hl heq ⊢
+  subst heq
+  rw [hl]
+  simp [ho, Opt.parse, hm, parseOne, hh, hb]
+
+example : startsWithDash (lit "--debug") = true ∧ (partition 61 ((lit "--debug").dropWhile (· == 45))).2.1 = false
+    ∧ keyOf (lit "--debug") = lit "debug" := by decide +kernel
+
+/-- a timedelta option rejects (bare `Exception`, option unchanged) every non-empty text that does not start — after
+    whitespace — with a digit, a sign or a point -/
+theorem wrong_type_rejected_timedelta (o : Opt) (ho : o.ty = .timedelta) (hm : o.multiple = false) (s : Str) (hne : s ≠ [])
+    (h : ∀ c, (s.dropWhile isWs).head? = some c → isDigit c = false ∧ c ≠ 43 ∧ c ≠ 45 ∧ c ≠ 46) :
+    o.parse s = (o, some .exception) := by
+  simp [Opt.parse, hm, ho, parseOne, parseTimedelta_not_number s hne h, Except.map]
+
+example : ∀ c, ((lit " soon").dropWhile isWs).head? = some c → isDigit c = false ∧ c ≠ 43 ∧ c ≠ 45 ∧ c ≠ 46 := by
+  decide +kernel
+
+/-- a datetime option rejects (`Error`, option unchanged) every text containing a character that is not a digit, an ASCII
+    letter, whitespace, `-` or `:` — none of the ten formats can consume it -/
+theorem wrong_type_rejected_datetime (o : Opt) (ho : o.ty = .datetime) (hm : o.multiple = false) (s : Str)
+    (h : ∃ c ∈ s, isDigit c = false ∧ isAlpha c = false ∧ isWs c = false ∧ c ≠ 45 ∧ c ≠ 58) :
+    o.parse s = (o, some .error) := by
+  obtain ⟨c, hc, h1, h2, h3, h4, h5⟩ := h
+  have hb : dtCh c = false := by simp [dtCh, h1, h2, h3, h4, h5]
+  simp [Opt.parse, hm, ho, parseOne, parseDatetime_bad s c hc hb]
+
+example : ∃ c ∈ lit "2024/02/29", isDigit c = false ∧ isAlpha c = false ∧ isWs c = false ∧ c ≠ 45 ∧ c ≠ 58 := by
+  decide +kernel
 
 end TornadoModel.C44
